@@ -21,6 +21,9 @@ type c13Case struct {
 	Days   []int  `json:"days"`
 	Layout string `json:"layout"`
 	TZ     string `json:"tz,omitempty"`
+	// Depth > 0: the resolve depth is set (the book then holds a chain nested more deeply than the default limit allows)
+	Depth    int    `json:"depth,omitempty"`
+	DepthVia string `json:"depthvia,omitempty"` // "flag" | "env" | "config"
 }
 
 var (
@@ -47,8 +50,20 @@ func checkC13(c c13Case, ctx *vCtx) *vFailure {
 	if c.Layout != "" {
 		base = append(base, "--date-format", c.Layout)
 	}
+	env := map[string]string{}
+	if c.Depth > 0 {
+		switch c.DepthVia {
+		case "env":
+			env["HR_MAXDEPTH"] = fmt.Sprint(c.Depth)
+		case "config":
+			base = append([]string{"--config", vWriteFile("c13.conf", fmt.Sprintf("[Resolver]\nMaxDepth=%d\n", c.Depth))}, base...)
+		default:
+			base = append(base, "--maxdepth", fmt.Sprint(c.Depth))
+		}
+		ctx.Label("depth-above-default-via-" + c.DepthVia)
+	}
 	run := func(args ...string) string {
-		r := vRunApp(vInvocation{Args: append(append([]string{}, base...), args...), TZ: c.TZ})
+		r := vRunApp(vInvocation{Args: append(append([]string{}, base...), args...), TZ: c.TZ, Env: env})
 		ctx.Run(1)
 		if r.Failed {
 			vViolate("C13: %v failed on valid input: %s", args, r)
@@ -202,7 +217,18 @@ func genC13(t *rapid.T) c13Case {
 		}
 		log.Recs[i].Head = vFmtDay(days[i], layout)
 	}
-	return c13Case{Book: book, Log: log, Days: days, Layout: layout, TZ: c06Zones[rapid.IntRange(0, len(c06Zones)-1).Draw(t, "tz")]}
+	c := c13Case{Book: book, Log: log, Days: days, Layout: layout, TZ: c06Zones[rapid.IntRange(0, len(c06Zones)-1).Draw(t, "tz")]}
+	if rapid.IntRange(0, 5).Draw(t, "deep") == 0 {
+		// a chain nested more deeply than the default limit allows, and a limit that allows it
+		L := rapid.IntRange(10, 16).Draw(t, "deeplen")
+		chain := c11Chain("deep~", L)
+		chain[L-1].Lines[0].Name = "leaf~x"
+		c.Book.Recs = append(c.Book.Recs, chain...)
+		c.Book.NoFinalNL = false
+		c.Depth = L + rapid.IntRange(1, 4).Draw(t, "deepslack")
+		c.DepthVia = []string{"flag", "env", "config"}[rapid.IntRange(0, 2).Draw(t, "deepvia")]
+	}
+	return c
 }
 
 // ---------------------------------------------------------------------------
@@ -217,6 +243,9 @@ type c14Case struct {
 	TZ     string `json:"tz,omitempty"`
 	Begin  int    `json:"begin"` // c07Absent = none
 	End    int    `json:"end"`
+	// where each bound is written: false = after the command word, true = among the global options
+	GlobalB bool `json:"globalb,omitempty"`
+	GlobalE bool `json:"globale,omitempty"`
 }
 
 func checkC14(c c14Case, ctx *vCtx) *vFailure {
@@ -234,15 +263,30 @@ func checkC14(c c14Case, ctx *vCtx) *vFailure {
 		}
 	}
 	opts = append(opts, "--today", vFmtDay(9, c.Layout))
-	var period []string
+	var period, gperiod []string
 	if c.Begin != c07Absent {
-		period = append(period, "-b", vFmtDay(c.Begin, c.Layout))
+		if c.GlobalB {
+			gperiod = append(gperiod, "-b", vFmtDay(c.Begin, c.Layout))
+		} else {
+			period = append(period, "-b", vFmtDay(c.Begin, c.Layout))
+		}
 	}
 	if c.End != c07Absent {
-		period = append(period, "-e", vFmtDay(c.End, c.Layout))
+		if c.GlobalE {
+			gperiod = append(gperiod, "-e", vFmtDay(c.End, c.Layout))
+		} else {
+			period = append(period, "-e", vFmtDay(c.End, c.Layout))
+		}
+	}
+	if len(gperiod) > 0 && len(period) > 0 {
+		ctx.Label("period-on-both-levels")
 	}
 	run := func(logPath string, withPeriod bool, args ...string) vRun {
-		a := append(append([]string{}, opts...), "-l", logPath)
+		a := append([]string{}, opts...)
+		if withPeriod {
+			a = append(a, gperiod...)
+		}
+		a = append(a, "-l", logPath)
 		a = append(a, args...)
 		if withPeriod {
 			a = append(a, period...)
@@ -402,6 +446,7 @@ func genC14(t *rapid.T) c14Case {
 		if rapid.Bool().Draw(t, "hase") {
 			c.End = shift + rapid.IntRange(0, 7).Draw(t, "e")
 		}
+		c.GlobalB, c.GlobalE = rapid.Bool().Draw(t, "globalb"), rapid.Bool().Draw(t, "globale")
 	}
 	return c
 }
